@@ -38,6 +38,7 @@ Definition proj {A} (r : ares A) : option (bool * N * N) :=
   | AOk _ n _ al => Some (true, n, al)
   | AErr n al => Some (false, n, al)
   | AFuel => None
+  | APanic => None       (* the cases are runs that returned: a model panic is a mismatch *)
   end.
 
 Definition run (e : entry) (b : bytes) : option (bool * N * N) :=
